@@ -55,7 +55,7 @@ CLAIMS = {
          "Trusted: reference canonical encoder written from the property statement.",
          "DESIGN.md section 6, C10"),
  "C14": ("deterministic sweeps + rapid PBT; differential against independent lower-level decodes of the reference projection",
-         "For every accepted temporal / environmental vector, BaseMetrics() / TemporalMetrics() (and the base view of the temporal view) must agree in score, severity, encoding and encoding error with NewBase / NewTemporal decodes of the vector's base and base+temporal projections computed by the reference tokenizer; accessors must be non-nil and, for v2, be the exported embedded objects; every case is evaluated in both query orders (views first / top-level object first), and the complete v2 base x temporal domain is compared through the environmental decoder.",
+         "For every accepted temporal / environmental vector, BaseMetrics() / TemporalMetrics() (and the base view of the temporal view) must agree in score, severity, encoding and encoding error with NewBase / NewTemporal decodes of the vector's base and base+temporal projections computed by the reference tokenizer; accessors must be non-nil; every case is evaluated in both query orders (views first / top-level object first), and the complete v2 base x temporal domain is compared through the environmental decoder.",
          "Trusted: reference projection. Same sweeps and rapid budgets as C09, restricted to temporal and environmental decoders.",
          "DESIGN.md section 6, C14"),
  "C15": ("model-based PBT: generated operation sequences with a fresh-twin oracle",
